@@ -14,7 +14,7 @@
      ones accepted). *)
 From Coq Require Import String.
 From PDV Require Import lib.Base gen.Gen_C08 model.C08_Steps model.C08_Builder
-     proof.C08_ListFacts proof.C08_PlanProof proof.C08_BuilderProof proof.C08_JointMain proof.C08_NjMain proof.C08_AllocIds proof.C08_Skel proof.C08_StepSpec.
+     proof.C08_ListFacts proof.C08_PlanProof proof.C08_BuilderProof proof.C08_JointMain proof.C08_NjMain proof.C08_LeaderStores proof.C08_AllocIds proof.C08_Skel proof.C08_StepSpec.
 Local Open Scope Z_scope.
 
 (* ---- the checker is sound, for every region state, goal and plan ---- *)
@@ -99,6 +99,20 @@ Theorem C08_builder_leader_only_to_accepting_stores_bounded :
     prepared (mk_input n ov ol tv tl lok m force) = Some b -> build (mk_input n ov ol tv tl lok m force) = Built ss kl kr ->
     leader_stores_ok (b_cluster b) ol (b_tleader b) (b_force b) ss = true.
 Proof. exact builder_leader_stores_bounded_pf. Qed.
+
+(* the same IN GENERAL: any region (any number of peers and stores), any sequence of builder calls, any cluster, both build
+   paths.  Joint path: the one leader move of the script goes to the requested or the picked target leader, both of which
+   passed allowLeader while the origin leader led.  Non-joint path: invariant of the loop - the leader moves of a round are
+   the ones its plan kind allows (planReplaceLeaders' second move judged after the first, allowLeaderAfter) - and the final
+   move as on the joint path *)
+Theorem C08_builder_leader_only_to_accepting_stores :
+  forall i b ss kl kr,
+    nodup_stores (peers (i_region i)) = true ->
+    is_in_joint (i_region i) = false ->
+    (exists lp, get_store_peer (i_region i) (leader (i_region i)) = Some lp /\ prole lp = Voter) ->
+    prepared i = Some b -> build i = Built ss kl kr ->
+    leader_stores_ok (b_cluster b) (leader (i_region i)) (b_tleader b) (b_force b) ss = true.
+Proof. exact builder_leader_stores_pf. Qed.
 
 Theorem C08_leader_bounce_rejected :
   leader_stores_ok (Cluster [Store 1 true false []; Store 2 true true []; Store 3 true true []] false false 0) 1 0 false
@@ -273,6 +287,7 @@ Qed.
 Print Assumptions C08_executor_never_sends_unsafe_step.
 Print Assumptions C08_builder_leader_only_to_accepting_stores_bounded.
 Print Assumptions C08_leader_bounce_rejected.
+Print Assumptions C08_builder_leader_only_to_accepting_stores.
 Print Assumptions C08_plan_ok_sound.
 Print Assumptions C08_exec_plan_covers_steps.
 Print Assumptions C08_check_safety_sound.
